@@ -39,3 +39,317 @@ Theorem c05_seq_exclusive : ltac:(let t := type of seq_exclusive in exact t).
 Proof. exact seq_exclusive. Qed.
 Check c05_seq_exclusive.
 Print Assumptions c05_seq_exclusive.
+
+(* ---- what resend, connect and the persisted publish write: order and DUP ---- *)
+(* Additions for coq/props/C05.v: wire order and DUP flag of connect/resend and of the
+   persisted-publish path, as theorems on Session.v (theories/ResendOrder.v).
+   Needs in the import line of props/C05.v:
+     From Coq Require Import ZArith List.  Import ListNotations.
+     From RecordUpdate Require Import RecordUpdate.
+     From MQ Require Import ConnectProofs ResendOrder.                      *)
+From Coq Require Import ZArith List.
+From RecordUpdate Require Import RecordUpdate.
+From MQ Require Import Session Outbound OutboundInv OutboundRefine ConnectProofs ResendOrder.
+Import ListNotations.
+Open Scope N_scope.
+
+(* ---- 1. resend: order, DUP, submit counter ---- *)
+
+(* the calls of one resend run are exactly [resend_run]: Load n, the stored packet n with
+   DUP iff n < sub0 offered to the connection, for n = seqno, seqno+1, ... up to and
+   including the first failure *)
+Theorem c05_resend_writes : forall m cn space fuel seqno acc subm w s e w',
+  w_store w = Some m ->
+  (N.to_nat (acc - seqno) < fuel)%nat ->
+  (forall n, seqno <= n < acc -> genuine_at m (key_of space n)) ->
+  resend fuel cn space seqno acc subm w = Some ((s, e), w') ->
+  w_store w' = Some m /\
+  exists tr, grows w w' tr /\ resend_run m cn space acc subm seqno seqno tr s e.
+Proof. exact resend_writes. Qed.
+Print Assumptions c05_resend_writes.
+
+(* as connect calls it for at-least-once, under the invariant: sequence numbers
+   acked, acked+1, ...; each packet the stored PUBLISH with DUP iff below the submit
+   counter at entry; complete on success; the failing number not counted *)
+Theorem c05_resend_writes_alo : forall c m cn w s e w',
+  w_store w = Some m -> OInv' (oproj c m) ->
+  resend (S (N.to_nat (k_acc1 c - k_acked c))) cn alo_space (k_acked c) (k_acc1 c) (k_sub1 c) w
+    = Some ((s, e), w') ->
+  w_store w' = Some m /\
+  exists tr os, grows w w' tr /\
+    resend_run m cn alo_space (k_acc1 c) (k_sub1 c) (k_acked c) (k_acked c) tr s e /\
+    run_offers m cn alo_space (k_acc1 c) (k_sub1 c) (k_acked c) tr os /\
+    map fst os = seq_from (k_acked c) (length os) /\
+    Forall (fun o => k_acked c <= fst o < k_acc1 c /\
+                     exists retain topic msg,
+                       resend_packet m alo_space (k_sub1 c) (fst o)
+                       = publish_packet (head_publish 1 retain (fst o <? k_sub1 c)) topic msg (key1 (fst o))) os /\
+    (e = 0 -> N.of_nat (length os) = k_acc1 c - k_acked c /\
+              s = if k_acc1 c =? k_acked c then k_sub1 c else k_acc1 c) /\
+    (e <> 0 -> exists k, k_acked c <= k < k_acc1 c /\ s = sub_at (k_sub1 c) (k_acked c) k).
+Proof. exact resend_writes_level1. Qed.
+Print Assumptions c05_resend_writes_alo.
+
+(* exactly-once: PUBREL (as stored, no DUP bit) for [compl, recvd), PUBLISH for [recvd, acc) *)
+Theorem c05_resend_writes_eo : forall c m cn w s e w',
+  w_store w = Some m -> OInv' (oproj c m) ->
+  resend (S (N.to_nat (k_acc2 c - k_compl c))) cn eo_space (k_compl c) (k_acc2 c) (k_sub2 c) w
+    = Some ((s, e), w') ->
+  w_store w' = Some m /\
+  exists tr os, grows w w' tr /\
+    resend_run m cn eo_space (k_acc2 c) (k_sub2 c) (k_compl c) (k_compl c) tr s e /\
+    run_offers m cn eo_space (k_acc2 c) (k_sub2 c) (k_compl c) tr os /\
+    map fst os = seq_from (k_compl c) (length os) /\
+    Forall (fun o => k_compl c <= fst o < k_acc2 c /\
+                     ((fst o < k_recvd c /\
+                       resend_packet m eo_space (k_sub2 c) (fst o) = packet_pubrel (key2 (fst o)))
+                      \/ (k_recvd c <= fst o /\ exists retain topic msg,
+                            resend_packet m eo_space (k_sub2 c) (fst o)
+                            = publish_packet (head_publish 2 retain (fst o <? k_sub2 c)) topic msg (key2 (fst o))))) os /\
+    (e = 0 -> N.of_nat (length os) = k_acc2 c - k_compl c /\
+              s = if k_acc2 c =? k_compl c then k_sub2 c else k_acc2 c) /\
+    (e <> 0 -> exists k, k_compl c <= k < k_acc2 c /\ s = sub_at (k_sub2 c) (k_compl c) k).
+Proof. exact resend_writes_level2. Qed.
+Print Assumptions c05_resend_writes_eo.
+
+Theorem c05_resend_success_counter : forall m cn space acc sub0 lo n tr s,
+  resend_run m cn space acc sub0 lo n tr s 0 -> s = sub_at sub0 lo (N.max n acc).
+Proof. exact resend_run_ok. Qed.
+Print Assumptions c05_resend_success_counter.
+
+Theorem c05_resend_failure_counter : forall m cn space acc sub0 lo n tr s e,
+  resend_run m cn space acc sub0 lo n tr s e -> e <> 0 ->
+  exists k, n <= k < acc /\ s = sub_at sub0 lo k.
+Proof. exact resend_run_failed. Qed.
+Print Assumptions c05_resend_failure_counter.
+
+Theorem c05_sub_at_max : forall sub0 lo k, lo <= sub0 -> lo <= k -> sub_at sub0 lo k = N.max sub0 k.
+Proof. exact sub_at_max. Qed.
+Print Assumptions c05_sub_at_max.
+
+Theorem c05_resend_consecutive : forall m cn space acc sub0 n tr os,
+  run_offers m cn space acc sub0 n tr os ->
+  map fst os = seq_from n (length os) /\ n + N.of_nat (length os) <= N.max n acc /\
+  Forall (fun o => snd o = WOk) (removelast os).
+Proof. exact run_offers_consecutive. Qed.
+Print Assumptions c05_resend_consecutive.
+
+Theorem c05_resend_complete_on_success : forall m cn space acc sub0 lo n tr s,
+  resend_run m cn space acc sub0 lo n tr s 0 ->
+  exists os, run_offers m cn space acc sub0 n tr os /\
+             map fst os = seq_from n (N.to_nat (acc - n)) /\ Forall (fun o => snd o = WOk) os.
+Proof. exact resend_run_ok_offers. Qed.
+Print Assumptions c05_resend_complete_on_success.
+
+Theorem c05_resend_packets_alo : forall c m cn n tr os,
+  OInv' (oproj c m) -> k_acked c <= n ->
+  run_offers m cn alo_space (k_acc1 c) (k_sub1 c) n tr os ->
+  Forall (fun o => k_acked c <= fst o < k_acc1 c /\
+                   exists retain topic msg,
+                     resend_packet m alo_space (k_sub1 c) (fst o)
+                     = publish_packet (head_publish 1 retain (fst o <? k_sub1 c)) topic msg (key1 (fst o))) os.
+Proof. exact resend_offers_level1. Qed.
+Print Assumptions c05_resend_packets_alo.
+
+Theorem c05_resend_packets_eo : forall c m cn n tr os,
+  OInv' (oproj c m) -> k_compl c <= n ->
+  run_offers m cn eo_space (k_acc2 c) (k_sub2 c) n tr os ->
+  Forall (fun o => k_compl c <= fst o < k_acc2 c /\
+                   ((fst o < k_recvd c /\
+                     resend_packet m eo_space (k_sub2 c) (fst o) = packet_pubrel (key2 (fst o)))
+                    \/ (k_recvd c <= fst o /\ exists retain topic msg,
+                          resend_packet m eo_space (k_sub2 c) (fst o)
+                          = publish_packet (head_publish 2 retain (fst o <? k_sub2 c)) topic msg (key2 (fst o))))) os.
+Proof. exact resend_offers_level2. Qed.
+Print Assumptions c05_resend_packets_eo.
+
+Theorem c05_dup_bit : forall level retain dup topic msg pid, level = 1 \/ level = 2 ->
+  dup_bit (publish_packet (head_publish level retain dup) topic msg pid) = dup.
+Proof. exact dup_bit_publish. Qed.
+Print Assumptions c05_dup_bit.
+
+(* ---- 2. connect: CONNECT first, level 1 before level 2, both before the token ---- *)
+
+Theorem c05_connect_order : forall c m w c' e w',
+  w_store w = Some m -> OInv' (oproj c m) ->
+  connect c w = Some ((c', e), w') ->
+  w_store w' = Some m /\ exists tr, grows w w' tr /\ connect_run c m c' e tr.
+Proof. exact connect_order. Qed.
+Print Assumptions c05_connect_order.
+
+Theorem c05_connect_ok_shape : forall c m c' tr,
+  connect_run c m c' 0 tr ->
+  exists wtr rtr rs1 rs2 s1 s2,
+    tr = QLoad 0 :: QDial :: wtr ++ rtr ++ rs1 ++ rs2 /\
+    offered (k_nconn c) [connect_pkt c m] true WOk wtr /\
+    Forall (is_read (k_nconn c)) rtr /\
+    resend_run m (k_nconn c) alo_space (k_acc1 c) (k_sub1 c) (k_acked c) (k_acked c) rs1 s1 0 /\
+    resend_run m (k_nconn c) eo_space (k_acc2 c) (k_sub2 c) (k_compl c) (k_compl c) rs2 s2 0 /\
+    k_wsem c' = WsConn (k_nconn c) /\ k_nconn c' = k_nconn c + 1 /\
+    cp c' = cp (c <| k_sub1 := s1 |> <| k_sub2 := s2 |>).
+Proof. exact connect_ok_shape. Qed.
+Print Assumptions c05_connect_ok_shape.
+
+Theorem c05_connect_failed_down : forall c m c' e tr,
+  connect_run c m c' e tr -> e <> 0 -> k_closed c = false -> k_wsem c' = WsDown.
+Proof. exact connect_failed_down. Qed.
+Print Assumptions c05_connect_failed_down.
+
+Theorem c05_connect_first_write : forall c m c' e tr,
+  connect_run c m c' e tr ->
+  Forall (write_on (k_nconn c)) tr /\
+  (Forall no_write tr \/
+   exists rest, tr = QLoad 0 :: QDial :: QWrite (k_nconn c) (connect_pkt c m) :: rest).
+Proof. exact connect_first_write. Qed.
+Print Assumptions c05_connect_first_write.
+
+Theorem c05_connect_success_counters : forall c m c' tr,
+  OInv' (oproj c m) -> connect_run c m c' 0 tr ->
+  k_sub1 c' = (if k_acc1 c =? k_acked c then k_sub1 c else k_acc1 c) /\
+  k_sub2 c' = (if k_acc2 c =? k_compl c then k_sub2 c else k_acc2 c) /\
+  k_acc1 c' = k_acc1 c /\ k_acc2 c' = k_acc2 c /\ k_acked c' = k_acked c /\
+  k_compl c' = k_compl c /\ k_recvd c' = k_recvd c.
+Proof. exact connect_success_counters. Qed.
+Print Assumptions c05_connect_success_counters.
+
+Theorem c05_connect_failed_alo : forall c m c' e tr wtr rtr rs1 s1,
+  OInv' (oproj c m) ->
+  resend_run m (k_nconn c) alo_space (k_acc1 c) (k_sub1 c) (k_acked c) (k_acked c) rs1 s1 e -> e <> 0 ->
+  cp c' = cp (c <| k_sub1 := s1 |>) ->
+  tr = QLoad 0 :: QDial :: wtr ++ rtr ++ rs1 ++ [QClose (k_nconn c)] ->
+  exists k, k_acked c <= k < k_acc1 c /\ k_sub1 c' = sub_at (k_sub1 c) (k_acked c) k /\
+            (k <? k_sub1 c') = (k <? k_sub1 c).
+Proof. exact connect_failed_level1. Qed.
+Print Assumptions c05_connect_failed_alo.
+
+(* ---- 3. first transmission ---- *)
+
+Theorem c05_first_transmission : forall c m level retain msg topic w c' r w',
+  w_store w = Some m -> level = 1 \/ level = 2 ->
+  op_publish_persisted c level retain msg topic w = Some ((c', r), w') ->
+  exists m' tr, w_store w' = Some m' /\ grows w w' tr /\
+                persisted_run c m level retain msg topic c' r m' tr.
+Proof. exact first_transmission. Qed.
+Print Assumptions c05_first_transmission.
+
+Theorem c05_first_transmission_writes : forall c m level retain msg topic c' r m' tr,
+  level = 1 \/ level = 2 ->
+  persisted_run c m level retain msg topic c' r m' tr ->
+  (Forall no_write tr /\ (forall x, r = RetExch x -> lv_sub level c' = lv_sub level c))
+  \/ exists cn wr, first_tx c m level retain msg topic c' r m' tr cn wr.
+Proof. exact persisted_run_writes. Qed.
+Print Assumptions c05_first_transmission_writes.
+
+Theorem c05_first_transmission_no_dup : forall c level retain msg topic, level = 1 \/ level = 2 ->
+  dup_bit (pp_packet c level retain msg topic) = false.
+Proof. exact pp_packet_no_dup. Qed.
+Print Assumptions c05_first_transmission_no_dup.
+
+Theorem c05_first_transmission_is_saved : forall c m level retain msg topic, k_rseq c + 1 < M64 ->
+  packet_at (store_put m (pp_key c level) (pp_record c level retain msg topic)) (pp_key c level)
+  = concat [pp_head c level retain msg topic; msg].
+Proof. exact pp_saved_is_offered. Qed.
+Print Assumptions c05_first_transmission_is_saved.
+
+Theorem c05_first_transmission_no_backlog : forall c m level retain msg topic c' r m' tr cn wr,
+  level = 1 \/ level = 2 -> OInv' (oproj c m) ->
+  first_tx c m level retain msg topic c' r m' tr cn wr -> lv_sub level c = lv_acc level c.
+Proof. exact first_tx_no_backlog. Qed.
+Print Assumptions c05_first_transmission_no_backlog.
+
+Theorem c05_backlog_enqueues : forall c m level retain msg topic c' r m' tr,
+  lv_sub level c < lv_acc level c ->
+  persisted_run c m level retain msg topic c' r m' tr ->
+  Forall no_write tr /\
+  (forall x, r = RetExch x -> x = pp_x c /\ c' = xsend (accepted level c) x E_down).
+Proof. exact persisted_backlog. Qed.
+Print Assumptions c05_backlog_enqueues.
+
+(* ---- 4. one connection ---- *)
+
+Theorem c05_batch_increasing : forall m cn space acc sub0 n tr os,
+  run_offers m cn space acc sub0 n tr os -> increasing (map fst os).
+Proof. exact run_offers_increasing. Qed.
+Print Assumptions c05_batch_increasing.
+
+Theorem c05_batch_before_first_tx : forall level c0 m0 c1 m1 cn lo tr0 os c m retain msg topic c' r m' tr cn' wr,
+  level = 1 \/ level = 2 ->
+  run_offers m0 cn (lv_space level) (lv_acc level c0) (lv_sub level c0) lo tr0 os ->
+  lv_acc level c1 = lv_acc level c0 ->
+  osteps (oproj c1 m1) (oproj c m) ->
+  first_tx c m level retain msg topic c' r m' tr cn' wr ->
+  Forall (fun o => fst o < lv_acc level c) os /\
+  dup_bit (pp_packet c level retain msg topic) = false /\
+  (lv_sub level c0 <= lv_acc level c0 -> (lv_acc level c <? lv_sub level c0) = false).
+Proof. exact batch_before_first_tx. Qed.
+Print Assumptions c05_batch_before_first_tx.
+
+Theorem c05_first_tx_increasing : forall level c m retain msg topic c' r m' tr cn wr
+        d md retain2 msg2 topic2 d' r2 md' tr2 cn2 wr2,
+  level = 1 \/ level = 2 ->
+  first_tx c m level retain msg topic c' r m' tr cn wr ->
+  osteps (oproj c' m') (oproj d md) ->
+  first_tx d md level retain2 msg2 topic2 d' r2 md' tr2 cn2 wr2 ->
+  lv_acc level c < lv_acc level d /\ lv_acc level d <= lv_sub level d.
+Proof. exact first_tx_increasing. Qed.
+Print Assumptions c05_first_tx_increasing.
+
+(* ---- concrete runs (vm_compute) ---- *)
+
+(* three pending at-least-once publishes, only the first ever submitted; the reconnect
+   (last call) writes CONNECT, 1 with DUP (head 58), 2 and 3 without (head 50) *)
+Example c05_reconnect_dup_example :
+  exo_hist exo_h1 =
+  Some ((0, 3, 3, WsConn 1),
+        [ (RetMsg [97] [120], [(0, exo_connect_pkt)]);
+          (RetExch 1, [(0, [50; 7; 0; 1; 116; 128; 0]); (0, [109; 49])]);
+          (RetErr E_brokerterm, []);
+          (RetExch 2, []); (RetExch 3, []);
+          (RetMsg [97] [120],
+           [(1, exo_connect_pkt);
+            (1, [58; 7; 0; 1; 116; 128; 0; 109; 49]);
+            (1, [50; 7; 0; 1; 116; 128; 1; 109; 50]);
+            (1, [50; 7; 0; 1; 116; 128; 2; 109; 51])]) ]).
+Proof. exact reconnect_dup_example. Qed.
+Print Assumptions c05_reconnect_dup_example.
+
+(* the scenario of the seeded change M3-C05b: the write of the second PUBLISH fails inside
+   resend with no byte accepted; the next connection carries it without DUP *)
+Example c05_failed_resend_not_counted :
+  exo_hist exo_h2 =
+  Some ((0, 2, 2, WsConn 1),
+        [ (RetExch 1, []); (RetExch 2, []);
+          (RetErr (werr WClosed),
+           [(0, exo_connect_pkt);
+            (0, [50; 7; 0; 1; 116; 128; 0; 109; 49]);
+            (0, [50; 7; 0; 1; 116; 128; 1; 109; 50])]);
+          (RetMsg [97] [120],
+           [(1, exo_connect_pkt);
+            (1, [58; 7; 0; 1; 116; 128; 0; 109; 49]);
+            (1, [50; 7; 0; 1; 116; 128; 1; 109; 50])]) ]).
+Proof. exact failed_resend_not_counted_example. Qed.
+Print Assumptions c05_failed_resend_not_counted.
+
+(* corner: every byte accepted but the write reported an error: retransmitted without DUP *)
+Example c05_dup_corner_accepted_but_failed :
+  exo_hist exo_h3 =
+  Some ((0, 1, 1, WsConn 1),
+        [ (RetMsg [97] [120], [(0, exo_connect_pkt)]);
+          (RetExch 1, [(0, [50; 7; 0; 1; 116; 128; 0]); (0, [109; 49])]);
+          (RetMsg [97] [120],
+           [(1, exo_connect_pkt);
+            (1, [50; 7; 0; 1; 116; 128; 0; 109; 49])]) ]).
+Proof. exact dup_corner_accepted_but_failed. Qed.
+Print Assumptions c05_dup_corner_accepted_but_failed.
+
+(* corner: acknowledged beyond submitted; the submit counter stays behind after a
+   successful connect and the next publish is only enqueued although online *)
+Example c05_backlog_stuck_corner :
+  exo_hist exo_h4 =
+  Some ((1, 0, 2, WsConn 1),
+        [ (RetMsg [97] [120], [(0, exo_connect_pkt)]);
+          (RetExch 1, [(0, [50; 7; 0; 1; 116; 128; 0])]);
+          (RetMsg [97] [120], [(1, exo_connect_pkt)]);
+          (RetExch 2, []) ]).
+Proof. exact backlog_stuck_corner. Qed.
+Print Assumptions c05_backlog_stuck_corner.
